@@ -266,7 +266,7 @@ impl Prop for C01 {
     const RULE: &'static str = "bit sequences by regime (lengths around 64/512/4096/2^16/bit_len^4 thresholds; uniform densities 0.001..0.999, clustered runs, 4096 packed + few spread ones, complemented) built by one of 11 public routes (raw vector by push_bit / set_bit / clearing bits / push_int chunks / pushes interleaved with popped junk / complement(), bool iterators with and without size hint, conversions from the sparse and run-length vector) with supports enabled in a generated order, every query compared with a sorted-set model (all arguments 0..=len+1 and extremes when len <= limit, structural edges + sampled otherwise); plus all bit strings of length <= 12 (quick) / 16 (thorough). Non-trivial: len >= 2 and 0 < ones < len; distinct by (len, bits) digest.";
 
     fn cases(tier: Tier) -> u32 {
-        tier.pick(2400, 16000)
+        tier.pick(2400, 60_000)
     }
 
     fn strategy(tier: Tier, _cfg: &str) -> BoxedStrategy<Case> {
